@@ -62,10 +62,11 @@ def cmd_check(a):
 
     # ---------------- kernel engine
     symbols = plan_mod.symbols_for(P, KI)
-    results = check.run_symbols(symbols, P["kinds"]) if symbols else []
+    results = check.run_symbols(symbols, P["kinds"], functions=P.get("functions", ())) if (symbols or P.get("functions")) else []
     so = None
     runner = None
     need_native = bool(symbols)
+    plain_functions = set(P.get("functions", ()))
     if need_native:
         so = native.build_kernels()
         runner = native.KernelRunner(so)
@@ -113,7 +114,7 @@ def cmd_check(a):
                 do_diff = True
                 want = max(want, 400)
             witness = None
-            if do_diff and (e is None or not e.startswith("spec_")):
+            if do_diff and sym_ not in plain_functions and (e is None or not e.startswith("spec_")):
                 witness, cases, why = check.find_witness(sym_, seed, want=want, runner=runner)
                 if why is None:
                     bounded.append({"function": sym_, "bound": "admissible generated inputs, arrays <= %d elements" % difftest.IN_SIZE,
@@ -135,7 +136,7 @@ def cmd_check(a):
                     continue
                 payload = {"property": pid, "symbol": sym_, "obligation": o["id"], "description": o["desc"],
                            "line": o["line"], "solver": o["backend"], "solver_model": o["model"],
-                           "args": KI.symbols[sym_]["args"]}
+                           "args": KI.symbols[sym_]["args"] if sym_ in KI.symbols else None}
                 if witness:
                     payload["input"] = witness["input"]
                     payload["why"] = witness["why"]
